@@ -182,3 +182,9 @@ func (x *Exec) Run(fn *ssa.Function) (err error) {
 	x.Call(fn, nil, nil, x.C.True)
 	return nil
 }
+
+// FakeSlice is a slice header of (possibly symbolic) length n over a one-element dummy object; only len/cap may be used.
+func (x *Exec) FakeSlice(n *Term) *SliceV {
+	o := x.newObj("fakeslice", nil, &ArrayV{E: []Val{x.C.Const(8, 0)}})
+	return &SliceV{Obj: o, Off: x.i64(0), Len: n, Cap: n}
+}
